@@ -58,15 +58,30 @@ func leafKey(s smbgen.Struct, lf smbgen.IntLeaf, class string) string {
 func byteOrder(structs []smbgen.Struct) {
 	for _, s := range structs {
 		rels := smbgen.Relations(s.Name)
+		for bi := 0; bi < r.Pick(4, 60); bi++ {
+			byteOrderOne(s, rels, bi)
+		}
+	}
+}
+
+func byteOrderOne(s smbgen.Struct, rels []smbgen.Relation, bi int) {
+	{
 		c := s.New()
-		smbgen.Fill(c, rels, r.Rand("bo|"+s.Name), smbgen.ModeDistinct, 5)
+		mode := smbgen.ModeRandom
+		if bi < 4 {
+			mode = smbgen.Mode(bi) // byte-distinct, all-ones, sign-bit, one
+		}
+		smbgen.Fill(c, rels, r.Rand(fmt.Sprintf("bo|%s|%d", s.Name, bi)), mode, 5+bi%40)
+		smbgen.AlignPads(c, rels)
 		base, slots, ok := smbgen.FindSlots(c, s.Type)
 		if !ok {
 			r.Count("structs_not_encodable", 1)
-			continue
+			return
 		}
 		_ = base
-		r.Count("integer_leaves_total", len(smbgen.IntLeaves(s.Type)))
+		if bi == 0 {
+			r.Count("integer_leaves_total", len(smbgen.IntLeaves(s.Type)))
+		}
 		for si, sl := range slots {
 			lf := sl.Leaf
 			v := lf.Leaf(reflect.ValueOf(c).Elem())
@@ -91,7 +106,7 @@ func byteOrder(structs []smbgen.Struct) {
 					}
 					r.Violation(leafKey(s, lf, class), what, cs)
 				}
-				r.Nontrivial(fmt.Sprintf("enc|%s|%s|%d", s.Name, lf.Path, k))
+				r.Nontrivial(fmt.Sprintf("enc|%s|%s|%d|%d", s.Name, lf.Path, k, bi))
 				// decode direction: reference little-endian bytes in the slot
 				if lf.Width > 1 {
 					val2 := distinctValue(lf.Width, si+k*5+3)
@@ -113,7 +128,7 @@ func byteOrder(structs []smbgen.Struct) {
 			}
 			smbgen.SetBits(v, orig)
 		}
-		if s.Name == "NtCreateAndxRequest" || s.Name == "SeekRequest" {
+		if bi == 0 && (s.Name == "NtCreateAndxRequest" || s.Name == "SeekRequest") {
 			var d []string
 			for _, sl := range slots {
 				d = append(d, fmt.Sprintf("%s@%d..%d", sl.Leaf.Path, sl.Lo, sl.Hi))
